@@ -29,6 +29,56 @@ SD = "spatiallyAdaptiveSingleDimension2.SpatiallyAdaptiveSingleDimensions2"
 LEVELVEC_FUNCS = ("get_point_coord_for_each_dim", "get_subtraction_value", "modify_according_to_levelvec")
 
 
+def check_sorted_after_removal(prog, ctx, rule="C03.D3"):
+    """the dimension-wise post-processing removes the refined intervals and re-sorts every container ascending by `start` on every path:
+    `apply_remove(sort=True)` with the literal True (children are appended at the end of the list), and the callee sorts by start"""
+    rp = prog.func(SD + ".refinement_postprocessing")
+    ctx.touch(rp)
+    ar_calls = [x for x in R.calls_in(rp.node, method="apply_remove") if R.attr_chain(x.func.value) == [rp.self_name, "refinement"]]
+    ctx.floor(rule, len(ar_calls), 1, "apply_remove calls in the dimension-wise post-processing")
+    for x in ar_calls:
+        val = None
+        for kw in x.keywords:
+            if kw.arg == "sort":
+                val = kw.value
+        if val is None and x.args:
+            val = x.args[0]
+        ok = isinstance(val, ast.Constant) and val.value is True
+        crp = cfg_of(rp)
+        on_all = crp.post_dominates(R.cfg_node(rp, x), crp.entry)
+        ctx.check(ok and on_all, rule, R.key_of(rp, "sort-flag"), rp.loc(x),
+                  "removal is applied with sort=True on every path",
+                  "refinement_postprocessing does not call apply_remove(sort=True) on every path (`%s`): new intervals stay appended at the end, "
+                  "the per-dimension lists are no longer ascending" % src(x))
+    ar = prog.func("RefinementContainer.RefinementContainer.apply_remove")
+    ctx.touch(ar)
+    tma = Terms(ar.node, max_depth=0)
+    car = cfg_of(ar)
+    sorted_ok = False
+    for s in R.self_stores(ar, "refinementObjects"):
+        if s.kind == "plain":
+            t = tma.term(s.value)
+            guards = [g for (g, gn) in R.dominating_guards(ar, R.cfg_node(ar, s.stmt), tma) if gn.kind == "test"]
+            key_t = dict(t[3]).get("key") if t[0] == "call" else None
+            by_start = key_t in (("call", ("n", "attrgetter"), (("c", "'start'"),), ()), ("call", ("a", ("n", "operator"), "attrgetter"), (("c", "'start'"),), ()),
+                                 ("lambda", 1, ("a", ("bv", "$0"), "start")))
+            rev = dict(t[3]).get("reverse") if t[0] == "call" else None
+            if t[0] == "call" and t[1] == ("n", "sorted") and t[2] and t[2][0] == ("a", ("n", "self"), "refinementObjects") \
+                    and by_start and ("n", ar.params[1]) in guards and rev in (None, ("c", "False")):
+                sorted_ok = True
+    for x in R.calls_in(ar.node, method="sort"):
+        if R.self_attr(x.func.value, "self") == "refinementObjects":
+            kws = {k.arg: k.value for k in x.keywords}
+            kt = tma.term(kws["key"]) if "key" in kws else None
+            if kt in (("call", ("n", "attrgetter"), (("c", "'start'"),), ()), ("lambda", 1, ("a", ("bv", "$0"), "start"))) \
+                    and ("reverse" not in kws or (isinstance(kws["reverse"], ast.Constant) and kws["reverse"].value is False)):
+                sorted_ok = True
+    ctx.check(sorted_ok, rule, R.key_of(ar, "sorted-by-start"), ar.loc(),
+              "with sort=True the objects are re-ordered ascending by `start`",
+              "apply_remove(sort=True) no longer re-assigns refinementObjects sorted ascending by attrgetter('start')")
+
+
+
 def run(prog, ctx):
     sd = prog.cls(SD)
 
@@ -240,51 +290,8 @@ def run(prog, ctx):
     check_no_override_bypass(prog, ctx)
 
     # ------------------------------------------------------------------ D3
+    check_sorted_after_removal(prog, ctx, "C03.D3")
     rp = prog.func(SD + ".refinement_postprocessing")
-    ctx.touch(rp)
-    ar_calls = [x for x in R.calls_in(rp.node, method="apply_remove") if R.attr_chain(x.func.value) == [rp.self_name, "refinement"]]
-    ctx.floor("C03.D3", len(ar_calls), 1, "apply_remove calls in the dimension-wise post-processing")
-    for x in ar_calls:
-        val = None
-        for kw in x.keywords:
-            if kw.arg == "sort":
-                val = kw.value
-        if val is None and x.args:
-            val = x.args[0]
-        ok = isinstance(val, ast.Constant) and val.value is True
-        crp = cfg_of(rp)
-        on_all = crp.post_dominates(R.cfg_node(rp, x), crp.entry)
-        ctx.check(ok and on_all, "C03.D3", R.key_of(rp, "sort-flag"), rp.loc(x),
-                  "removal is applied with sort=True on every path",
-                  "refinement_postprocessing does not call apply_remove(sort=True) on every path (`%s`): new intervals stay appended at the end, "
-                  "the per-dimension lists are no longer ascending" % src(x))
-    ar = prog.func("RefinementContainer.RefinementContainer.apply_remove")
-    ctx.touch(ar)
-    tma = Terms(ar.node, max_depth=0)
-    car = cfg_of(ar)
-    sorted_ok = False
-    for s in R.self_stores(ar, "refinementObjects"):
-        if s.kind == "plain":
-            t = tma.term(s.value)
-            guards = [g for (g, gn) in R.dominating_guards(ar, R.cfg_node(ar, s.stmt), tma) if gn.kind == "test"]
-            key_t = dict(t[3]).get("key") if t[0] == "call" else None
-            by_start = key_t in (("call", ("n", "attrgetter"), (("c", "'start'"),), ()), ("call", ("a", ("n", "operator"), "attrgetter"), (("c", "'start'"),), ()),
-                                 ("lambda", 1, ("a", ("bv", "$0"), "start")))
-            rev = dict(t[3]).get("reverse") if t[0] == "call" else None
-            if t[0] == "call" and t[1] == ("n", "sorted") and t[2] and t[2][0] == ("a", ("n", "self"), "refinementObjects") \
-                    and by_start and ("n", ar.params[1]) in guards and rev in (None, ("c", "False")):
-                sorted_ok = True
-    for x in R.calls_in(ar.node, method="sort"):
-        if R.self_attr(x.func.value, "self") == "refinementObjects":
-            kws = {k.arg: k.value for k in x.keywords}
-            kt = tma.term(kws["key"]) if "key" in kws else None
-            if kt in (("call", ("n", "attrgetter"), (("c", "'start'"),), ()), ("lambda", 1, ("a", ("bv", "$0"), "start"))) \
-                    and ("reverse" not in kws or (isinstance(kws["reverse"], ast.Constant) and kws["reverse"].value is False)):
-                sorted_ok = True
-    ctx.check(sorted_ok, "C03.D3", R.key_of(ar, "sorted-by-start"), ar.loc(),
-              "with sort=True the objects are re-ordered ascending by `start`",
-              "apply_remove(sort=True) no longer re-assigns refinementObjects sorted ascending by attrgetter('start')")
-
     # ------------------------------------------------------------------ D4
     crp = cfg_of(rp)
     raises = [R.cfg_node(rp, x) for x in R.calls_in(rp.node, method="raise_lmax")]
